@@ -2,6 +2,7 @@ package main
 
 import (
 	"context"
+	"crypto"
 	"crypto/ecdsa"
 	"crypto/elliptic"
 	"crypto/rand"
@@ -126,8 +127,24 @@ func (c11Watcher) Add(string, watcher.ChangeListener) error { return nil }
 
 type c11KeyHolders struct{}
 
-func (c11KeyHolders) AddKeyHolder(keyholder.KeyHolder) {}
-func (c11KeyHolders) Keys() []jose.JSONWebKey          { return nil }
+// the key holder registered last (the signer of the jwt finalizer created last)
+var c11LastHolder keyholder.KeyHolder
+
+func (c11KeyHolders) AddKeyHolder(kh keyholder.KeyHolder) { c11LastHolder = kh }
+func (c11KeyHolders) Keys() []jose.JSONWebKey              { return nil }
+
+// what the signer behind a key holder feeds into its hash, as far as it is visible from outside: key id, algorithm and
+// thumbprint of its (single) key
+func c11SignerFacts(kh keyholder.KeyHolder) (string, string, []byte, bool) {
+	if kh == nil || len(kh.Keys()) == 0 {
+		return "", "", nil, false
+	}
+
+	jwk := kh.Keys()[0]
+	tp, _ := jwk.Thumbprint(crypto.SHA256)
+
+	return jwk.KeyID, jwk.Algorithm, tp, true
+}
 
 type c11Observer struct{}
 
@@ -159,6 +176,7 @@ func (r *c11ReqFuncs) Headers() map[string]string  { return r.headers }
 func (r *c11ReqFuncs) Body() any                   { return nil }
 
 type c11Ctx struct {
+	result   any // what the mechanism produced (subject / outputs entry), with its Go types
 	app      context.Context
 	req      *heimdall.Request
 	outputs  map[string]any
@@ -206,7 +224,7 @@ func c11SignIfJWT(s string) string {
 	}
 
 	payload, _ := json.Marshal(map[string]any{
-		"iss": issuer, "sub": parts[2], "exp": time.Now().Add(time.Hour).Unix(), "scp": []string{"s1"},
+		"iss": issuer, "sub": parts[2], "exp": int64(4102444800), "scp": []string{"s1"},
 	})
 
 	jws, err := signer.Sign(payload)
@@ -370,8 +388,22 @@ func c11Handler(w http.ResponseWriter, r *http.Request) {
 	}
 
 	w.Header().Set("Content-Type", "application/json")
+	w.Header().Set("X-R1", "r1-"+echo)
+	w.Header().Set("X-R2", "r2-"+echo)
 
 	switch {
+	case strings.Contains(r.URL.Path, "/ct-yaml"):
+		w.Header().Set("Content-Type", "application/yaml")
+		fmt.Fprintf(w, "echo: \"%s\"\nsub: \"%s\"\nlevel: %d\nroles: [a, b]\nnested:\n  n: %d\n", echo, echo, level, level)
+	case strings.Contains(r.URL.Path, "/ct-form"):
+		w.Header().Set("Content-Type", "application/x-www-form-urlencoded")
+		fmt.Fprintf(w, "echo=%s&sub=%s&level=%d&roles=a&roles=b", echo, echo, level)
+	case strings.Contains(r.URL.Path, "/ct-text"):
+		w.Header().Set("Content-Type", "text/plain")
+		fmt.Fprintf(w, "echo %s lvl%d", echo, level)
+	case strings.Contains(r.URL.Path, "/ct-empty"):
+		w.Header().Del("Content-Type")
+		w.WriteHeader(http.StatusOK)
 	case strings.HasPrefix(r.URL.Path, "/intro"):
 		form, _ := url.ParseQuery(string(body))
 		token := form.Get("token")
@@ -383,7 +415,7 @@ func c11Handler(w http.ResponseWriter, r *http.Request) {
 
 		_ = json.NewEncoder(w).Encode(map[string]any{
 			"active": true, "sub": echo, "scope": scope, "iss": "issuer-1",
-			"exp": time.Now().Add(2 * time.Hour).Unix(), "iat": time.Now().Add(-time.Minute).Unix(),
+			"exp": int64(4102444800), "iat": int64(1000000000), // fixed, so that responses can be compared
 		})
 	case strings.HasPrefix(r.URL.Path, "/jwks"):
 		var keys []jose.JSONWebKey
@@ -404,7 +436,9 @@ func c11Handler(w http.ResponseWriter, r *http.Request) {
 		w.Header().Set("Cache-Control", "max-age=600")
 		_, _ = w.Write([]byte(`{"echo":"` + echo + `"}`))
 	default:
-		_ = json.NewEncoder(w).Encode(map[string]any{"sub": echo, "echo": echo, "level": level})
+		_ = json.NewEncoder(w).Encode(map[string]any{
+			"sub": echo, "echo": echo, "level": level, "roles": []string{"a", "b"}, "nested": map[string]any{"n": level},
+		})
 	}
 }
 
@@ -479,8 +513,14 @@ func c11Subst(v any) any {
 
 type c11Mech struct {
 	kind string
-	raw  any
 	exec func(ctx *c11Ctx, sub *subject.Subject) (string, error) // result echo
+}
+
+// a mechanism of the catalogue: created once, handed out to rules as it is or through WithConfig
+type c11Proto struct {
+	kind   string
+	holder keyholder.KeyHolder
+	with   func(override map[string]any) (*c11Mech, error)
 }
 
 func c11Unsub(s string) string {
@@ -523,8 +563,9 @@ func c11JWTClaims(header string) string {
 	return string(out) + "|sig=" + sig
 }
 
-func c11Build(kind, id string, conf map[string]any, override map[string]any) (*c11Mech, error) {
+func c11NewProto(kind, id string, conf map[string]any) (*c11Proto, error) {
 	cctx := c11CreationContext{}
+	c11LastHolder = nil
 
 	switch kind {
 	case "genericAuthenticator", "introspection", "jwtAuthenticator":
@@ -539,18 +580,26 @@ func c11Build(kind, id string, conf map[string]any, override map[string]any) (*c
 			return nil, err
 		}
 
-		mech, err := proto.WithConfig(override)
-		if err != nil {
-			return nil, err
-		}
+		return &c11Proto{kind: kind, with: func(override map[string]any) (*c11Mech, error) {
+			mech := proto // as the mechanism factory does: without a rule-level configuration the prototype itself is used
 
-		return &c11Mech{kind: kind, exec: func(ctx *c11Ctx, _ *subject.Subject) (string, error) {
-			sub, err := mech.Execute(ctx)
-			if err != nil {
-				return "", err
+			if override != nil {
+				var err error
+				if mech, err = proto.WithConfig(override); err != nil {
+					return nil, err
+				}
 			}
 
-			return sub.ID, nil
+			return &c11Mech{kind: kind, exec: func(ctx *c11Ctx, _ *subject.Subject) (string, error) {
+				sub, err := mech.Execute(ctx)
+				if err != nil {
+					return "", err
+				}
+
+				ctx.result = map[string]any{"ID": sub.ID, "Attributes": sub.Attributes}
+
+				return sub.ID, nil
+			}}, nil
 		}}, nil
 	case "remoteAuthorizer":
 		proto, err := authorizers.CreatePrototype(cctx, id, authorizers.AuthorizerRemote, conf)
@@ -558,17 +607,25 @@ func c11Build(kind, id string, conf map[string]any, override map[string]any) (*c
 			return nil, err
 		}
 
-		mech, err := proto.WithConfig(override)
-		if err != nil {
-			return nil, err
-		}
+		return &c11Proto{kind: kind, with: func(override map[string]any) (*c11Mech, error) {
+			mech := proto // as the mechanism factory does: without a rule-level configuration the prototype itself is used
 
-		return &c11Mech{kind: kind, exec: func(ctx *c11Ctx, sub *subject.Subject) (string, error) {
-			if err := mech.Execute(ctx, sub); err != nil {
-				return "", err
+			if override != nil {
+				var err error
+				if mech, err = proto.WithConfig(override); err != nil {
+					return nil, err
+				}
 			}
 
-			return c11EchoOf(ctx.outputs[id]), nil
+			return &c11Mech{kind: kind, exec: func(ctx *c11Ctx, sub *subject.Subject) (string, error) {
+				if err := mech.Execute(ctx, sub); err != nil {
+					return "", err
+				}
+
+				ctx.result = ctx.outputs[id]
+
+				return c11EchoOf(ctx.outputs[id]), nil
+			}}, nil
 		}}, nil
 	case "genericContextualizer":
 		proto, err := contextualizers.CreatePrototype(cctx, id, contextualizers.ContextualizerGeneric, conf)
@@ -576,60 +633,121 @@ func c11Build(kind, id string, conf map[string]any, override map[string]any) (*c
 			return nil, err
 		}
 
-		mech, err := proto.WithConfig(override)
-		if err != nil {
-			return nil, err
-		}
+		return &c11Proto{kind: kind, with: func(override map[string]any) (*c11Mech, error) {
+			mech := proto // as the mechanism factory does: without a rule-level configuration the prototype itself is used
 
-		return &c11Mech{kind: kind, exec: func(ctx *c11Ctx, sub *subject.Subject) (string, error) {
-			if err := mech.Execute(ctx, sub); err != nil {
-				return "", err
-			}
-
-			return c11EchoOf(ctx.outputs[id]), nil
-		}}, nil
-	case "jwtFinalizer":
-		proto, err := finalizers.CreatePrototype(cctx, id, finalizers.FinalizerJwt, conf)
-		if err != nil {
-			return nil, err
-		}
-
-		mech, err := proto.WithConfig(override)
-		if err != nil {
-			return nil, err
-		}
-
-		return &c11Mech{kind: kind, raw: mech, exec: func(ctx *c11Ctx, sub *subject.Subject) (string, error) {
-			if err := mech.Execute(ctx, sub); err != nil {
-				return "", err
-			}
-
-			for _, vs := range ctx.upstream {
-				if len(vs) != 0 {
-					return c11JWTClaims(vs[0]), nil
+			if override != nil {
+				var err error
+				if mech, err = proto.WithConfig(override); err != nil {
+					return nil, err
 				}
 			}
 
-			return "no-header", nil
+			return &c11Mech{kind: kind, exec: func(ctx *c11Ctx, sub *subject.Subject) (string, error) {
+				if err := mech.Execute(ctx, sub); err != nil {
+					return "", err
+				}
+
+				ctx.result = ctx.outputs[id]
+
+				return c11EchoOf(ctx.outputs[id]), nil
+			}}, nil
+		}}, nil
+	case "jwtFinalizer", "ccFinalizer":
+		typ := finalizers.FinalizerJwt
+		if kind == "ccFinalizer" {
+			typ = finalizers.FinalizerOAuth2ClientCredentials
+		}
+
+		proto, err := finalizers.CreatePrototype(cctx, id, typ, conf)
+		if err != nil {
+			return nil, err
+		}
+
+		return &c11Proto{kind: kind, holder: c11LastHolder, with: func(override map[string]any) (*c11Mech, error) {
+			mech := proto // as the mechanism factory does: without a rule-level configuration the prototype itself is used
+
+			if override != nil {
+				var err error
+				if mech, err = proto.WithConfig(override); err != nil {
+					return nil, err
+				}
+			}
+
+			return &c11Mech{kind: kind, exec: func(ctx *c11Ctx, sub *subject.Subject) (string, error) {
+				if err := mech.Execute(ctx, sub); err != nil {
+					return "", err
+				}
+
+				for _, vs := range ctx.upstream {
+					if len(vs) != 0 {
+						if kind == "ccFinalizer" {
+							return strings.TrimSpace(strings.TrimPrefix(vs[0], "Bearer")), nil
+						}
+
+						return c11JWTClaims(vs[0]), nil
+					}
+				}
+
+				return "no-header", nil
+			}}, nil
 		}}, nil
 	}
 
 	return nil, fmt.Errorf("unknown mechanism kind %s", kind)
 }
 
+func c11Build(kind, id string, conf map[string]any, override map[string]any) (*c11Mech, *c11Proto, error) {
+	proto, err := c11NewProto(kind, id, conf)
+	if err != nil {
+		return nil, nil, err
+	}
+
+	mech, err := proto.with(override)
+
+	return mech, proto, err
+}
+
 func c11EchoOf(v any) string {
 	switch x := v.(type) {
 	case map[string]any:
-		if e, ok := x["echo"].(string); ok {
+		switch e := x["echo"].(type) {
+		case string:
 			return e
+		case []string:
+			if len(e) != 0 {
+				return e[0]
+			}
+		case []any:
+			if len(e) != 0 {
+				return fmt.Sprint(e[0])
+			}
 		}
 	case string:
+		if f := strings.Fields(x); len(f) >= 2 && f[0] == "echo" {
+			return f[1]
+		}
+
 		return "str:" + x
 	case nil:
 		return "none"
 	}
 
 	return "other"
+}
+
+// the typed value as an expression or template sees it
+func c11Typed(v any) string { return fmt.Sprintf("%#v", v) }
+
+func c11Upstream(h http.Header) string {
+	var lines []string
+	for k, vs := range h {
+		lines = append(lines, k+"="+strings.Join(vs, ","))
+	}
+
+	sort.Strings(lines)
+
+	return strings.Join(lines, ";")
 }
 
 func c11CannedFor(kind string) []byte {
@@ -794,9 +912,37 @@ func c11KeyOp(c map[string]any) (any, error) {
 			keys = append(keys, clientcredentials.VerifC11CacheKey(&cc))
 		}
 	case "jwtSigner":
+		// a signer created by its constructor from a key store holding the harness key under the given key id
+		der, _ := x509.MarshalPKCS8PrivateKey(c11FinKey)
+		hdr := map[string]string{}
+
+		if kid := getStr(cfg, "kid"); kid != "" {
+			hdr["X-Key-ID"] = kid
+		}
+
+		f, err := os.CreateTemp("", "verif-c11-signer-*.pem")
+		if err != nil {
+			return nil, err
+		}
+
+		_ = pem.Encode(f, &pem.Block{Type: "PRIVATE KEY", Bytes: der, Headers: hdr})
+		f.Close()
+
+		defer os.Remove(f.Name())
+
+		signer, err := finalizers.VerifC11NewSigner(f.Name(), getStr(cfg, "iss"), c11Watcher{})
+		if err != nil {
+			return map[string]any{"error": "signer: " + c11ErrKind(err)}, nil
+		}
+
 		for range reps {
-			keys = append(keys, hex.EncodeToString(
-				finalizers.VerifC11SignerHash(getStr(cfg, "kid"), getStr(cfg, "alg"), getStr(cfg, "iss"))))
+			keys = append(keys, hex.EncodeToString(signer.Hash()))
+		}
+
+		if kid, alg, tp, ok := c11SignerFacts(signer); ok {
+			note("jwk.KeyID", []byte(kid))
+			note("jwk.Algorithm", []byte(alg))
+			note("jwk.Thumbprint(crypto.SHA256)", tp)
 		}
 	case "subject":
 		sub := c11Subject(cfg)
@@ -843,7 +989,7 @@ func c11KeyOp(c map[string]any) (any, error) {
 		override, _ := cfg["override"].(map[string]any)
 		step, _ := cfg["step"].(map[string]any)
 
-		mech, err := c11Build(fn, getStr(cfg, "id"), conf, override)
+		mech, proto, err := c11Build(fn, getStr(cfg, "id"), conf, override)
 		if err != nil {
 			return map[string]any{"error": "create: " + c11ErrKind(err), "msg": c11Unsub(err.Error())}, nil
 		}
@@ -865,11 +1011,9 @@ func c11KeyOp(c map[string]any) (any, error) {
 		}
 
 		if fn == "jwtFinalizer" {
-			fin, _ := mech.raw.(finalizers.Finalizer)
-			if kid, alg, iss, tp, ok := finalizers.VerifC11FinalizerSigner(fin); ok {
+			if kid, alg, tp, ok := c11SignerFacts(proto.holder); ok {
 				note("jwk.KeyID", []byte(kid))
 				note("jwk.Algorithm", []byte(alg))
-				note("s.iss", []byte(iss))
 				note("jwk.Thumbprint(crypto.SHA256)", tp)
 			}
 		}
@@ -924,7 +1068,10 @@ func c11RunOnce(c map[string]any, cacheOn bool) ([]any, error) {
 		overrides = append(overrides, m)
 	}
 
-	var out []any
+	var (
+		out   []any
+		proto *c11Proto
+	)
 
 	c11TakeCalls()
 
@@ -933,9 +1080,10 @@ func c11RunOnce(c map[string]any, cacheOn bool) ([]any, error) {
 		rec.take()
 
 		var (
-			echo string
-			err  error
-			obs  map[string]any
+			echo      string
+			typed, up string
+			err       error
+			obs       map[string]any
 		)
 
 		switch fn {
@@ -956,12 +1104,21 @@ func c11RunOnce(c map[string]any, cacheOn bool) ([]any, error) {
 				override = overrides[idx-1]
 			}
 
+			// the mechanism is created once and used by all rules (steps); a replaced key store means a reload
 			if getBool(step, "rotate") {
 				c11RotateFinalizerKey()
+
+				proto = nil
+			}
+
+			if proto == nil {
+				if proto, err = c11NewProto(fn, id, conf); err != nil {
+					return nil, fmt.Errorf("create: %s: %s", c11ErrKind(err), c11Unsub(err.Error()))
+				}
 			}
 
 			var mech *c11Mech
-			if mech, err = c11Build(fn, id, conf, override); err != nil {
+			if mech, err = proto.with(override); err != nil {
 				return nil, fmt.Errorf("create: %s: %s", c11ErrKind(err), c11Unsub(err.Error()))
 			}
 
@@ -974,16 +1131,18 @@ func c11RunOnce(c map[string]any, cacheOn bool) ([]any, error) {
 				"json.Marshal(s)": hex.EncodeToString(rawSub), "json.Marshal(ctx.Outputs())": hex.EncodeToString(rawOut),
 			}
 
-			if fin, ok := mech.raw.(finalizers.Finalizer); ok {
-				if kid, alg, iss, tp, ok := finalizers.VerifC11FinalizerSigner(fin); ok {
-					obs["jwk.KeyID"] = hex.EncodeToString([]byte(kid))
-					obs["jwk.Algorithm"] = hex.EncodeToString([]byte(alg))
-					obs["s.iss"] = hex.EncodeToString([]byte(iss))
-					obs["jwk.Thumbprint(crypto.SHA256)"] = hex.EncodeToString(tp)
-				}
+			if kid, alg, tp, ok := c11SignerFacts(proto.holder); ok {
+				obs["jwk.KeyID"] = hex.EncodeToString([]byte(kid))
+				obs["jwk.Algorithm"] = hex.EncodeToString([]byte(alg))
+				obs["jwk.Thumbprint(crypto.SHA256)"] = hex.EncodeToString(tp)
 			}
 
 			echo, err = mech.exec(ctx, sub)
+			typed, up = c11Typed(ctx.result), c11Upstream(ctx.upstream)
+
+			if fn == "jwtFinalizer" || fn == "ccFinalizer" {
+				up = "" // the token itself is compared through its claims / its origin
+			}
 		}
 
 		gets, hits, sets := rec.take()
@@ -991,7 +1150,7 @@ func c11RunOnce(c map[string]any, cacheOn bool) ([]any, error) {
 
 		r := map[string]any{
 			"keys": c11Distinct(gets), "hit": hits > 0, "stored": len(sets) > 0, "calls": calls, "out": c11ErrKind(err),
-			"echo": echo,
+			"echo": echo, "typed": typed, "up": up,
 		}
 		if obs != nil {
 			r["obs"] = obs
@@ -1023,6 +1182,10 @@ func c11HTTPStep(rec *c11Cache, step map[string]any) (string, error) {
 
 	if h := obj(step["headers"]); h != nil {
 		ep.Headers = c11StrMap(h)
+	}
+
+	if a := obj(step["auth"]); a != nil {
+		ep.AuthStrategy = c11Strategy(a)
 	}
 
 	ctx := cache.WithContext(zerolog.Nop().WithContext(context.Background()), rec)
